@@ -361,6 +361,38 @@ def r05e(ctx):
         ctx.inconclusive("R05e", "graphtage/tree.py", "TreeNode", None, "driver loops", "refinement loop not found in diff / get_all_edit_contexts")
 
 
+def r05f(ctx):
+    m = ctx.model
+    ctx.rule("R05f", "listing is re-entrant: EditCollection expands its sub-edits lazily from ONE shared iterator, which "
+                     "tighten_bounds() and every edits() generator advance; a generator must therefore yield from the shared "
+                     "collection by position after each expansion - yielding the value _expand_edits() handed to itself skips "
+                     "whatever others expanded while it was suspended")
+    q = m.need_class("EditCollection")
+    f = m.method(q, "edits")
+    ys = [y for y in walk_no_nested(f.node) if isinstance(y, ast.Yield) and y.value is not None]
+    yf = [y for y in walk_no_nested(f.node) if isinstance(y, ast.YieldFrom)]
+    ctx.floor("R05f", len(ys) + len(yf), 1, "yields of EditCollection.edits")
+    direct = []
+    for y in ys:
+        v = y.value
+        if isinstance(v, ast.Name):
+            defs = [a for a in walk_no_nested(f.node) if isinstance(a, ast.Assign) and isinstance(a.targets[0], ast.Name) and a.targets[0].id == v.id]
+            if any(isinstance(a.value, ast.Call) and self_attr(a.value.func) == "_expand_edits" for a in defs):
+                direct.append(y)
+        elif isinstance(v, ast.Call) and self_attr(v.func) == "_expand_edits":
+            direct.append(y)
+    snapshot = [y for y in yf if "self._sub_edits" in ast.unparse(y.value) and "islice" not in ast.unparse(y.value)]
+    if direct or (snapshot and any(isinstance(c, ast.Call) and self_attr(c.func) == "_expand_edits" for c in walk_no_nested(f.node))):
+        node = (direct or snapshot)[0]
+        ctx.violation("R05f", f.file, "EditCollection.edits", node, "yield by position",
+                      f"edits() yields `{norm(node.value, 40)}` - what it expanded itself - after a one-off pass over self._sub_edits; "
+                      f"tighten_bounds() and other edits() iterators pull from the same self._edit_iter, so the sub-edits they "
+                      f"expand in between are never yielded: `for s in e.edits(): e.tighten_bounds()` lists 2 of 5 sub-edits")
+    else:
+        ctx.proved("R05f", f.file, "EditCollection.edits", f.node, "yield by position",
+                   "every yielded sub-edit is read from self._sub_edits by position; _expand_edits() is only used to grow it")
+
+
 def run(ctx):
     r05a(ctx)
     r05e(ctx)
@@ -371,5 +403,8 @@ def run(ctx):
     r03d(ctx)
     from .c04 import r04d
     r04d(ctx)    # a non-definitive cached interval makes results depend on the order bounds()/tighten_bounds() are called
+    r05f(ctx)
+    from .c03 import r03h
+    r03h(ctx)    # a matcher that collapses equal elements gives a cost (and termination) that depends on the call order
     ctx.assume("sub-edits hold no reference to the edit that owns them (calls on other objects do not change self's fields)")
     ctx.assume("CPython semantics of None dereference; third-party objects (numpy arrays, tqdm) are not freed behind the engine's back")
